@@ -140,8 +140,12 @@ Definition shown16 (e : em) (obs : list Z) (l : lbl) : bool :=
                         (obs_at obs (w32 (r - base e) + 1) =? (a / 256) mod 256)) refs
   | _, _ => false
   end.
-Definition guided (ks : list lbl) (good shown : lbl -> bool) : list (list lbl) :=
-  let P := filter shown ks in
+(* [shown]: the label's operands show their resolved value in the observed bytes; [ambig]: they already did before
+   Finalize (the resolved value equals the placeholder), so the bytes cannot tell whether the label was visited:
+   both placements (all before / all after the failing label) are offered. *)
+Definition guided (ks : list lbl) (good shown ambig : lbl -> bool) : list (list lbl) :=
+  let A := filter (fun l => shown l && ambig l) ks in
+  let P := filter (fun l => shown l && negb (ambig l)) ks in
   let O := filter (fun l => negb (shown l)) ks in
   let B := filter (fun l => negb (good l)) O in
   let G := filter good O in
@@ -149,7 +153,8 @@ Definition guided (ks : list lbl) (good shown : lbl -> bool) : list (list lbl) :
      (only when patching panics: nil target, operand outside the buffer) *)
   match O with
   | [] => [ks]
-  | _ => map (fun x => P ++ [x] ++ filter (fun l => negb (N.eqb l x)) (B ++ G)) (B ++ G)
+  | _ => flat_map (fun x => let rest := filter (fun l => negb (N.eqb l x)) (B ++ G) in
+                            [P ++ A ++ [x] ++ rest; P ++ [x] ++ rest ++ A]) (B ++ G)
   end.
 
 Definition check_finalX (f : final) (e : em) : list (Z * Z) :=
@@ -158,8 +163,8 @@ Definition check_finalX (f : final) (e : em) : list (Z * Z) :=
   (let k8 := keys (d8 e) in let k16 := keys (d16 e) in
    if final_ok f e k8 k16 then []
    else if exists_sc (fun o8 => exists_sc (fun o16 => final_ok f e o8 o16)
-                                          (guided k16 (good16 e) (shown16 e (f_bytes f))))
-                     (guided k8 (good8 e) (shown8 e (f_bytes f)))
+                                          (guided k16 (good16 e) (shown16 e (f_bytes f)) (shown16 e (Bytes e))))
+                     (guided k8 (good8 e) (shown8 e (f_bytes f)) (shown8 e (Bytes e)))
         then []
         else if (Nat.leb (length k8) 5 && Nat.leb (length k16) 5)%bool
              then (if exists_sc (fun o8 => exists_sc (fun o16 => final_ok f e o8 o16) (perms k16)) (perms k8)
